@@ -295,7 +295,7 @@ func init() {
 	register(&Prop{
 		ID: "C09", Cmd: "c09",
 		Rule: "random contents (ASCII, whitespace, CRLF, multi-byte, truncated and invalid UTF-8) placed after 0-2 other files; at EVERY position from the first byte to end of file three random primitives with random arguments from their documented domains (plus contract-breaking Readf functions). Non-trivial = base offset > 1 and a multi-byte rune decoded; distinct = distinct case text.",
-		Count: quickN(4000, 40000),
+		Count: quickN(4000, 300000),
 		Gen:   c09Gen,
 		Exec:  c09Exec,
 		Shrink: func(c *Sexp) []*Sexp {
